@@ -208,9 +208,9 @@ theorem unguarded_arm_selected (fns : List FnDef) (n : Nat) (env env1 : Env) (v 
 
 /-- The examinee of a `match` is evaluated exactly once, before any guard. -/
 theorem examinee_once (fns : List FnDef) (n : Nat) (env env' : Env) (s : Expr) (isOpt : Bool) (arms : Arms) (t : Trace) (v : Val)
-    (h : (evalExpr fns n env s).yields t (env', v)) :
+    (h : (evalExpr fns n env s).yields t (env', v)) (hv : examineeOk isOpt v = true) :
     (evalExpr fns (n + 1) env (.mtch s isOpt arms)).tr = t ++ (evalArms fns n env' v arms).tr := by
-  simp only [evalExpr, bind_eq, R.bind_yields h]
+  simp only [evalExpr, bind_eq, R.bind_yields h, hv, if_true]
 
 /-- **The loop condition runs once more than the body**: a `while` loop that
     ends normally unfolds into `k + 1` evaluations of its condition and `k`
@@ -237,9 +237,14 @@ theorem loop_condition_runs_once_more (fns : List FnDef) (c : Expr) (b : Block) 
   `accept`/`reject` (the operand stays lazy until it is stored in the variant),
   `Option.Some`/`Option.None` and `?` (leaves the function on `None`), record
   literals (fields left to right, each stored before the next is lowered) and
-  field access (`x.f` is a lazy path read, `e.f` materialises `e`).
+  field access (`x.f` is a lazy path read, `e.f` materialises `e`), and `match`
+  (`r#match` / `match_case`: examinee materialised once, discriminant switch,
+  one guard chain per discriminant with the `_` arms woven in in source order,
+  binders assigned from the examinee's fields before the guard, shared arm
+  blocks, the default chain only when some variant has no case of its own).
   Missing from the model (and so from the theorem): script-function calls,
-  `match` (guards), `for`, user enum constructors, lists, f-strings; `drop` instructions and the `stack_slots` bookkeeping; the
+  `for`, user enum constructors, lists, f-strings; a `match` whose patterns
+  name a variant the examinee's type does not have; `drop` instructions and the `stack_slots` bookkeeping; the
   passage from structured MIR to the block/label CFG. -/
 
 open RotoV.LowerS in
@@ -426,6 +431,11 @@ def demoFn4 : FnDef :=
 example : (lowerFn demoFn4).isSome = true := by decide
 example : bodyValue (evalBlock [] 40 [(0, .int 4)] demoFn4.body).out = some (.int 4) := by decide
 example : (evalBlock [] 40 [(0, .int 4)] demoFn4.body).tr = [⟨0, [.int 1, .int 4]⟩, ⟨0, [.int 2, .int 9]⟩] := by decide
+-- … `match` with guards and `_` arms woven in (`demoMatch` above, as a function body)
+def demoFn5 : FnDef := ⟨[0], .last demoMatch⟩
+example : (lowerFn demoFn5).isSome = true := by decide
+example : bodyValue (evalBlock [] 40 [(0, .int 4)] demoFn5.body).out = some (.int 0) := by decide
+example : ((evalBlock [] 40 [(0, .int 4)] demoFn5.body).tr).length = 4 := by decide
 end nonvacuity
 
 end RotoV.C08
